@@ -785,6 +785,7 @@ Lemma vertex_total_partial_lemma :
   let fit := Fit.fit_cluster_to_helix F Cluster.point p_r p_x p_y flt feq fcmp fnan fadd fsub fmul fhalf fabs fzero
                guess6 bump point_val closest (fun c s => Fit.run_strategy c (ftree s)) sd_tol_ok in
   let vcost := Fit.vcost F fnan fadd fzero (Fit.track F) vcost_val in
+  let beamline_clusters := Fit.beamline_clusters F fcmp (Fit.track F) t_zb close_z mean_z sortP in
   let vertex_best := Fit.vertex_best F fcmp (Fit.track F) t_zb t_rad is_primary close_z sumF mean_z sortP in
   let find := Fit.find_vertices F vpoint fcmp fnan fadd fzero bump (fun c s => Fit.run_strategy c (vtree s)) sd_tol_ok
                 (Fit.track F) teq t_zb t_rad is_primary close_z sumF mean_z sortP vpoint_of vcost_val vguess tclosest in
@@ -806,9 +807,9 @@ Lemma vertex_total_partial_lemma :
               forall s, fit_simplex c = Ok s -> Fit.wf_strategy good 6 [] (ftree s)) ->
   (* V1 *) (forall trs, vertex_tracks sp_of cluster fit avs = Ok trs ->
               forall a b, In a trs -> In b trs -> fcmp (t_zb a) (t_zb b) <> None) ->
-  (* V2 *) (forall trs, vertex_tracks sp_of cluster fit avs = Ok trs ->
-              forall x y, (forall t, In t x -> In t trs) -> (forall t, In t y -> In t trs) ->
-              fcmp (sumF (map t_rad x)) (sumF (map t_rad y)) <> None) ->
+  (* V2bc *) (forall trs, vertex_tracks sp_of cluster fit avs = Ok trs ->
+              forall bc a b, beamline_clusters (filter is_primary trs) = Ok bc -> In a bc -> In b bc ->
+              fcmp (sumF (map t_rad (fst a))) (sumF (map t_rad (fst b))) <> None) ->
   (* V3e *) (forall trs, vertex_tracks sp_of cluster fit avs = Ok trs ->
               forall ts mz s, vertex_best trs = Ok (Some (ts, mz)) -> Fit.initial_simplex F bump (vguess mz) = Ok s ->
               forall p, In p (Fit.asked (vcost ts) (vtree s)) -> exists y, vcost ts p = Ok y /\ good y) ->
@@ -820,7 +821,7 @@ Lemma vertex_total_partial_lemma :
 Proof.
   intros A F vpoint sp_of bins near p_r p_x p_y flt feq fcmp fnan fadd fsub fmul fhalf fabs fzero guess6 bump
          point_val closest ftree vtree good sd_tol_ok teq t_zb t_rad is_primary close_z sumF mean_z sortP vpoint_of
-         vcost_val vguess tclosest cluster cost fit_simplex fit vcost vertex_best find
+         vcost_val vguess tclosest cluster cost fit_simplex fit vcost beamline_clusters vertex_best find
          HB N1 SD ST S T avs Z1 N2 N3 N4 V1 V2 V3 V4 V5.
   apply (vertex_res_total_rel sp_of cluster fit find (fun c => (13 <= length c)%nat)); auto.
   - intros pts. destruct (Cluster_proofs.cluster_pub_lemma bins near HB pts) as (cl & rem & E & _ & H).
@@ -833,14 +834,14 @@ Proof.
     + exact (N4 cl c Hcl Hc).
     + lia.
   - intros trs Htr.
-    apply (Fit_proofs.vertex_skeleton_total_evaluated_lemma F vpoint fcmp fnan fadd fzero bump vtree good sd_tol_ok
+    apply (Fit_proofs.vertex_skeleton_total_evaluated_bc_lemma F vpoint fcmp fnan fadd fzero bump vtree good sd_tol_ok
              (Fit.track F) teq t_zb t_rad is_primary close_z sumF mean_z sortP vpoint_of vcost_val vguess tclosest trs);
       auto.
     + exact (V1 trs Htr).
-    + exact (V2 trs Htr).
     + exact (V3 trs Htr).
     + exact (V4 trs Htr).
     + exact (V5 trs Htr).
+    + exact (V2 trs Htr).
 Qed.
 
 (* the table fact in the form the harness measures it (rel17table): bins lo..hi of the response exist and are
